@@ -81,7 +81,12 @@ Theorem C03_layout : forall sha1 ige_e, sha1_20 sha1 ->
 Proof. intros sha1 ige_e H. exact (seal_layout sha1 H ige_e). Qed.
 Print Assumptions C03_layout.
 
-(* the Go key schedule is the described one in both directions (x = 0 to the server, 8 to the client) *)
+(* the Go key schedule is the described one in both directions (x = 0 to the server, 8 to the client).
+   Note on anchoring: x = 0 is pinned by an author-independent vector (the repository's own test
+   packet, Example C03_repo_test_vector below).  For x = 8 no such vector exists - the MTProto 1.0
+   description publishes none and the repository's tests never decrypt - so x = 8 rests on this
+   theorem (Go slices = the description's substr formulas, transcribed in [kiv_spec]) and on the
+   harness' independent Go reference; this is listed in the trusted base of the evidence. *)
 Theorem C03_key_schedule : forall sha1 (to_server : bool) key mk,
   (128 + dir_x to_server <= length key)%nat ->
   kiv sha1 (dir_x to_server) key mk = Ok (kiv_spec sha1 (dir_x to_server) key mk).
